@@ -62,7 +62,7 @@ WORLD = {
     "C08": dict(nv=(1, 8), ns=(0, 3), nb=(0, 2), nr=(0, 25), p_fleets=0.1),
     "C09": dict(nv=(2, 5), ns=(1, 2), nb=(1, 2), nr=(2, 10), nsteps=(15, 40), p_fleets=0.3, p_schedules=0.3,
                 steps=[60, 60, 30, 120, 300], plug_counts=[1, 1, 2], stalls=[1, 1, 2], network=["haversine", "haversine", "haversine", "graph"]),
-    "C10": dict(nv=(2, 8), ns=(1, 3), nb=(1, 3), nr=(5, 25), p_fleets=1.0, p_schedules=0.5, soc=[0.05, 0.1, 0.3, 0.9],
+    "C10": dict(nv=(2, 8), ns=(1, 3), nb=(1, 3), nr=(5, 25), p_fleets=0.8, p_schedules=0.6, soc=[0.05, 0.1, 0.3, 0.9],
                 steps=[60, 60, 30, 120]),
     "C11": dict(nv=(0, 4), ns=(1, 3), nb=(1, 2), nr=(5, 40), nsteps=(30, 120), p_prices=0.8, p_price_full=0.4,
                 steps=[1, 7, 30, 60, 60, 61, 300, 900], p_fleets=0.15),
